@@ -47,6 +47,7 @@ def strategy_case(draw):
         c["data_type"] = draw(st.sampled_from(cast))
         c["read_transpose"] = c["transpose"]
         c["read_dtype"] = draw(st.sampled_from([None, "float32", "float64", "int32"]))
+        c["layout"] = draw(st.sampled_from(["c", "c", "fortran", "crop", "strided", "flipped", "axes"]))
         c["preexisting"] = draw(st.sampled_from([None, None, "overwrite", "no_overwrite"]))
     elif op in ("em2mrc", "mrc2em"):
         c["invert"] = draw(st.booleans())
@@ -90,6 +91,25 @@ def make_array(c):
         return np.round(rng.normal(0, 3, shape)).astype(dt)
     a = rng.normal(0, 1, shape) * 10.0 ** rng.integers(-6, 7, shape)
     return a.astype(dt)
+
+
+def relayout(a, kind):
+    """the same values in another memory layout (what callers hand over after cropping, binning, flipping, reordering axes)"""
+    if kind == "fortran":
+        return np.asfortranarray(a)
+    if kind == "crop":
+        big = np.zeros(tuple(s_ + 3 for s_ in a.shape), dtype=a.dtype)
+        big[1:-2, 2:-1, 1:-2] = a
+        return big[1:-2, 2:-1, 1:-2]
+    if kind == "strided":
+        big = np.zeros(tuple(2 * s_ for s_ in a.shape), dtype=a.dtype)
+        big[::2, ::2, ::2] = a
+        return big[::2, ::2, ::2]
+    if kind == "flipped":
+        return np.ascontiguousarray(a[:, ::-1, :])[:, ::-1, :]
+    if kind == "axes":
+        return np.ascontiguousarray(a.transpose(1, 0, 2)).transpose(1, 0, 2)
+    return a
 
 
 def parse(path):
@@ -140,6 +160,8 @@ def run(case):
         src = a
         if case["data_type"] == "int16i":
             src = np.clip(np.round(a), -30000, 30000).astype(np.float32)
+        src = relayout(src, case.get("layout", "c"))
+        out.label(f"layout:{case.get('layout', 'c')}")
         pre = None
         if case["preexisting"]:
             oracle.mrc_write(path, np.zeros((2, 2, 2), np.float32)) if ext != ".em" else oracle.em_write(path, np.zeros((2, 2, 2), np.float32))
